@@ -1,8 +1,9 @@
 SPECIFICATION Spec
 CONSTANTS
   Topics = {"t1", "t2"}
-  MaxRef = 1
+  MaxRef = 2
   QCap = 2
+  Parts = {"adv"}
   Callers = {"b1"}
   DevStopIgnoresRelay = FALSE
   DevNoCancel = FALSE
@@ -22,3 +23,5 @@ INVARIANT P_X06_c1
 INVARIANT P_X06_c2
 INVARIANT P_X06_e1
 CHECK_DEADLOCK FALSE
+PROPERTY P_X06_a_exit
+PROPERTY P_X06_h
